@@ -19,7 +19,13 @@ Theorem C15_rebuild_balanced : forall attempts, Forall (fun a => a <> Done) atte
 Proof. exact loop_hands_on_one. Qed.
 Print Assumptions C15_rebuild_balanced.
 
-(* every record handed to Produce is released exactly once when no write fails *)
-Theorem C15_produce_balanced : forall rms, produce_released rms (map (fun _ => true) rms) = (rms, false).
+(* every record handed to Produce is released exactly once, whatever the IPC writer answers for each of them ("encode
+   errors": a caller-supplied allocator may refuse an allocation during a write); the error path that did not visit the
+   records behind the failing one is refuted *)
+Theorem C15_produce_balanced : forall rms ok, fst (produce_released true rms ok) = rms.
 Proof. exact produce_releases_all. Qed.
 Print Assumptions C15_produce_balanced.
+
+Example C15_error_path_leaked :
+  fst (produce_released false [1; 2; 3] [true; false; true]) = [1; 2] /\ fst (produce_released true [1; 2; 3] [true; false; true]) = [1; 2; 3].
+Proof. exact produce_error_leaked. Qed.
